@@ -19,6 +19,24 @@ DELIM = b'~~~'
 NAMES = ('ping', 'job', 'echo')
 
 
+FORGED_KINDS = ('none', 'plain', 'slow', 'raise', 'plain')
+
+
+def forged_kind(uid):
+    """What the application handlers answer to a call that no script describes (a forged packet naming a real event):
+    chosen by its first argument if that is an int (-1 plain, -2 coroutine, -3 raise, -4 plain, -5 None, ...), else a value."""
+    return FORGED_KINDS[abs(uid) % len(FORGED_KINDS)] if uid is not None else 'plain'
+
+
+def kind_for(kind, tag):
+    """Handler behaviour of target ``tag`` for an event of script kind ``kind``."""
+    if kind == 'mixed':
+        return 'slow' if tag == 't0' else 'raise'
+    if kind == 'mixed2':
+        return 'raise' if tag == 't0' else 'slow'
+    return kind
+
+
 class FakeSock:
     """Stands for the accepted socket object of a server side connection (only identity is used)."""
 
@@ -229,6 +247,7 @@ class Rig:
         self.procs = {}
         self.call_ids = {}      # (link label of the call, id repr) -> uid
         self.tampered = 0
+        self.forged_runs = []   # handler behaviour chosen for dispatched events that no script describes
 
         def fw(proc, kind):
             deny = set(firewalls.get(proc, {}).get(kind, ()))
@@ -308,8 +327,11 @@ class Rig:
         self.invocations.append((target.proc.name, target.tag, uid, event.name, list(args), dict(kwargs),
                                  tuple(event.channels), snap))
         if sc is None:
-            return None
-        kind = sc['kind']
+            kind = forged_kind(uid)
+            self.forged_runs.append(kind)
+            sc = {}
+        else:
+            kind = kind_for(sc['kind'], target.tag)
         res = {'r': uid, 't': target.tag, 'a': list(args[1:]), 'k': dict(kwargs)}
         if kind == 'plain':
             return res
